@@ -3,6 +3,7 @@
 CONSTANTS
   Alphabet = {120, 58, 35, 32, 9, 13, 10}
   MaxLen = 6
+  LemmaLen = 6
   ZoneWhatIf = FALSE
   Emit = TRUE
   NoIndentRule = FALSE
